@@ -10,8 +10,9 @@
    reference; `wf_t` = sibling names unique (what Node guarantees, C03).
 
    Clauses without a theorem (decided by the correspondence and by prop_C08 evaluated on every
-   implementation output): merge_children, merge_leaves, replace_position, delete_children combined with
-   other flags, and the from==to / nested (one node inside the other) variants. *)
+   implementation output): merge_leaves below depth 1, merge_children / merge_leaves onto an existing destination,
+   replace from an unrelated branch of the same tree, delete_children combined with overriding/merge flags, the
+   from==to / nested variants, partial from-paths and multi-character separators in the string layer. *)
 From BT Require Import Base.Prelude Base.Str Base.Rose Algo.Modify Spec.PC08 Algo.ModifyProofs.
 
 (* One call with several pairs = the same single-pair calls in sequence (stopping at the first exception),
@@ -123,6 +124,130 @@ Theorem C08_tree_to_tree_source_untouched : forall i,
 Proof. exact tt_source_untouched. Qed.
 Print Assumptions C08_tree_to_tree_source_untouched.
 
+(* merge_children (starred): shift with merge_children=True, destination absent, no name clash: the children of
+   the source node are appended in order (ins_all = one insert_last per child, same tags) under the
+   destination parent, the source node and everything that was below it is gone from where it was, the
+   result is Spec.edit_cs and the untouched rows form a subsequence. *)
+Theorem C08_merge_children : forall sep tsep fl t p x comps PX,
+  f_mc fl = true -> f_ml fl = false -> f_dc fl = false -> wf_t t ->
+  p <> [] -> tget t p = Some x -> tpath t p = Some PX ->
+  (forall cc, In cc comps -> cc <> []) ->
+  pfx PX (tname t :: comps) = false ->
+  has (rows t) ((tname t :: comps) ++ [tname x]) = false ->
+  (forall k, In k (tkids x) -> has (rows t) ((tname t :: comps) ++ [tname k]) = false) ->
+  exists t2 rest,
+    cs_core (cfg_same false sep tsep fl) [t] (0 :: p) (TNew comps) = (t2 :: rest, None)
+    /\ rows t2 = minus (ins_all (tname t :: comps) (tkids x)
+                                (minus_strict (ensure (rows t) [tname t] comps) PX)) PX
+    /\ edit_cs false true fl (rows t) (rows t) PX (Some ((tname t :: comps) ++ [tname x])) = PNext (rows t2) (rows t2)
+    /\ subseq (minus (rows t) PX) (rows t2).
+Proof. exact C08_merge_children_stmt. Qed.
+Print Assumptions C08_merge_children.
+
+(* delete_children together with copy_nodes: the bare copy (tag None, same attributes) is attached, the
+   original keeps its place and its children. *)
+Theorem C08_delete_children_copy : forall sep tsep fl t p x comps PX,
+  f_mc fl = false -> f_ml fl = false -> f_dc fl = true -> wf_t t ->
+  p <> [] -> tget t p = Some x -> tpath t p = Some PX ->
+  (forall cc, In cc comps -> cc <> []) ->
+  pfx PX (tname t :: comps) = false ->
+  has (rows t) ((tname t :: comps) ++ [tname x]) = false ->
+  exists t2 rest,
+    cs_core (cfg_same true sep tsep fl) [t] (0 :: p) (TNew comps) = (t2 :: rest, None)
+    /\ rows t2 = insert_last (ensure (rows t) [tname t] comps) (tname t :: comps)
+                             [((tname t :: comps) ++ [tname x], None, tattrs x)]
+    /\ edit_cs true true fl (rows t) (rows t) PX (Some ((tname t :: comps) ++ [tname x])) = PNext (rows t2) (rows t2)
+    /\ subseq (rows t) (rows t2).
+Proof. exact C08_delete_children_copy_stmt. Qed.
+Print Assumptions C08_delete_children_copy.
+
+(* replace_position (starred), copy_and_replace_nodes_from_tree_to_tree: D is the child number |L| of the node at
+   reference par of the destination tree (children L ++ D :: R); afterwards the children are L ++ copy :: R —
+   the copy sits exactly at D's position, L and R keep their order — the source tree is piece 0, unchanged,
+   and the destination table is Spec.edit_rp: rows before D's block ++ rows of the copy ++ rows after it. *)
+Theorem C08_replace_position_tt : forall c fl s dt p x par L D R PX PQ,
+  tt_replace c -> f_dc fl = false -> wf_t s -> wf_t dt ->
+  p <> [] -> tget s p = Some x -> tpath s p = Some PX -> tpath dt par = Some PQ ->
+  fkids par (tkids dt) = Some (L ++ D :: R) -> (forall k, In k (L ++ R) -> tname k <> tname x) ->
+  let PD := PQ ++ [tname D] in
+  let t2 := t_setk par (L ++ retag x :: R) dt in
+  (exists rest, rp_core c [s; dt] (0 :: p) (1 :: par ++ [length L]) = (s :: t2 :: rest, None))
+  /\ rows t2 = before_block (rows dt) PD ++ rows_from PQ (retag x) ++ after_block (rows dt) PD
+  /\ edit_rp true false fl (rows s) (rows dt) PX (Some PD) = PNext (rows s) (rows t2).
+Proof. exact C08_replace_position_tt_stmt. Qed.
+Print Assumptions C08_replace_position_tt.
+
+(* replace_position, shift_and_replace_nodes, the replacing node F is a LEFT sibling of D
+   (children L1 ++ F :: L2 ++ D :: R): afterwards L1 ++ L2 ++ F :: R — F at D's position. *)
+Theorem C08_replace_position_left_sibling : forall c fl t par L1 F L2 D R PQ,
+  plain_replace c -> f_dc fl = false -> wf_t t -> tpath t par = Some PQ ->
+  fkids par (tkids t) = Some (L1 ++ F :: L2 ++ D :: R) ->
+  let PD := PQ ++ [tname D] in let PX := PQ ++ [tname F] in
+  let t2 := t_setk par (L1 ++ L2 ++ F :: R) t in
+  (exists rest, rp_core c [t] (0 :: par ++ [length L1]) (0 :: par ++ [length L1 + S (length L2)]) = (t2 :: rest, None))
+  /\ rows t2 = minus (before_block (rows t) PD) PX ++ rows_from PQ F ++ minus (after_block (rows t) PD) PX
+  /\ edit_rp false true fl (rows t) (rows t) PX (Some PD) = PNext (rows t2) (rows t2).
+Proof. exact C08_replace_left_sibling_stmt. Qed.
+Print Assumptions C08_replace_position_left_sibling.
+
+(* replace_position, the case the code comment does not mention: the replacing node F is itself a RIGHT sibling
+   of D (children L ++ D :: R1 ++ F :: R2).  D is detached, F is appended, then every right sibling of D —
+   F included — is detached and re-appended: the children end as L ++ R1 ++ F :: R2, i.e. F does NOT move to
+   D's slot relative to R1; the result is exactly the tree without D, and that is what Spec.edit_rp prescribes
+   (its `listed_after` branch). *)
+Theorem C08_replace_position_right_sibling : forall c fl t par L D R1 F R2 PQ,
+  plain_replace c -> f_dc fl = false -> wf_t t -> tpath t par = Some PQ ->
+  fkids par (tkids t) = Some (L ++ D :: R1 ++ F :: R2) ->
+  let PD := PQ ++ [tname D] in let PX := PQ ++ [tname F] in
+  (exists rest, rp_core c [t] (0 :: par ++ [length L + S (length R1)]) (0 :: par ++ [length L])
+                = (t_remove (par ++ [length L]) t :: rest, None))
+  /\ rows (t_remove (par ++ [length L]) t) = minus (rows t) PD
+  /\ edit_rp false true fl (rows t) (rows t) PX (Some PD) = PNext (minus (rows t) PD) (minus (rows t) PD).
+Proof. exact C08_replace_right_sibling_stmt. Qed.
+Print Assumptions C08_replace_position_right_sibling.
+
+(* merge_leaves (starred), PARTIAL.  Guard: every child of the source node is a leaf (and it has at least one
+   child), destination absent, no name clash.  Then the leaves (= the children, same objects) are appended in
+   order under the destination parent and the source node itself stays where it is, without children; the
+   result is Spec.edit_cs.  (For deeper source subtrees the loop runs over a snapshot of references whose
+   relation to the shrinking tree is not proved; that case is decided by the correspondence + prop_C08.) *)
+Theorem C08_merge_leaves_partial : forall sep tsep fl t p x comps PX,
+  f_mc fl = false -> f_ml fl = true -> wf_t t ->
+  p <> [] -> tget t p = Some x -> tpath t p = Some PX ->
+  tkids x <> [] -> Forall (fun k => tkids k = []) (tkids x) ->
+  (forall cc, In cc comps -> cc <> []) ->
+  pfx PX (tname t :: comps) = false ->
+  has (rows t) ((tname t :: comps) ++ [tname x]) = false ->
+  (forall k, In k (tkids x) -> has (rows t) ((tname t :: comps) ++ [tname k]) = false) ->
+  exists t2 rest,
+    cs_core (cfg_same false sep tsep fl) [t] (0 :: p) (TNew comps) = (t2 :: rest, None)
+    /\ rows t2 = ins_all (tname t :: comps) (tkids x) (minus_strict (ensure (rows t) [tname t] comps) PX)
+    /\ edit_cs false true fl (rows t) (rows t) PX (Some ((tname t :: comps) ++ [tname x])) = PNext (rows t2) (rows t2)
+    /\ subseq (minus_strict (rows t) PX) (rows t2).
+Proof. exact C08_merge_leaves_partial_stmt. Qed.
+Print Assumptions C08_merge_leaves_partial.
+
+(* The string layer, end to end: shift_nodes(tree, [from], [to], sep=c, with_full_path=True) with a
+   single-character separator c that occurs in no name on the two paths (sepfree), from = the full path of
+   an existing non-root node, to = a path whose last name is the node's name, absent from the tree and not
+   inside the moved subtree.  The call passes the argument checks of modify.py:1051-1108, raises nothing, and
+   leaves exactly the documented table (C08_shift_paths) = Spec.edit_cs.  Everything from rstrip/replace/split
+   to find_full_path and add_path_to_tree is inside this statement. *)
+Theorem C08_shift_whole_call : forall (c0 : N) sk t p x comps PX,
+  let sep := [c0] in
+  let fl := MF sk false false false false true in
+  let Q := tname t :: comps in
+  wf_t t -> p <> [] -> tget t p = Some x -> tpath t p = Some PX ->
+  Forall (sepfree c0) PX -> Forall (sepfree c0) Q ->
+  pfx PX Q = false -> has (rows t) (Q ++ [tname x]) = false ->
+  let i := MI OpShift fl sep t sep (T None [] [] []) sep [join sep PX] [Some (join sep (Q ++ [tname x]))] in
+  valid_call i = true
+  /\ exists t2, run i = ([t2], None)
+     /\ rows t2 = insert_last (minus (ensure (rows t) [tname t] comps) PX) Q (rows_from Q x)
+     /\ edit_cs false true fl (rows t) (rows t) PX (Some (Q ++ [tname x])) = PNext (rows t2) (rows t2).
+Proof. exact C08_shift_whole_call_stmt. Qed.
+Print Assumptions C08_shift_whole_call.
+
 (* ---- the hypotheses are satisfiable by non-trivial inputs ------------------------------------ *)
 
 Ltac conj := repeat match goal with |- _ /\ _ => split end.
@@ -208,3 +333,63 @@ Example C08_tree_to_tree_nonvacuous :
               [[114;47;97]%N] [Some [115;47;117;47;97]%N] in
   is_tt (mi_op i) = true /\ snd (run i) = None /\ tsize (piece (fst (run i)) 1) = 6.
 Proof. vm_compute. conj; reflexivity. Qed.
+
+(* merge_children: r(x(c1,c2,c3,c4,c5), y): shift r/x to r/y/x with merge_children: all five children arrive, x is gone *)
+Definition ex_tree_mc : tree :=
+  T (Some 0) [114%N] [] [ T (Some 1) [120%N] [] [T (Some 2) [49%N] [] []; T (Some 3) [50%N] [] []; T (Some 4) [51%N] [] [];
+                                               T (Some 5) [52%N] [] []; T (Some 6) [53%N] [] []];
+                         T (Some 7) [121%N] [] [] ].
+Example C08_merge_children_run :
+  wf_t ex_tree_mc /\
+  fst (run (MI OpShift (MF false false true false false true) [47%N] ex_tree_mc [47%N] (T None [] [] []) [47%N]
+               [[114;47;120]%N] [Some [114;47;121;47;120]%N]))
+  = [T (Some 0) [114%N] [] [T (Some 7) [121%N] [] [T (Some 2) [49%N] [] []; T (Some 3) [50%N] [] []; T (Some 4) [51%N] [] [];
+                                                   T (Some 5) [52%N] [] []; T (Some 6) [53%N] [] []]];
+     T (Some 1) [120%N] [] []].
+Proof. split; [apply wf_tb_sound; reflexivity|vm_compute; reflexivity]. Qed.
+
+(* replace: r(a,b,c,d,e) *)
+Definition ex_tree_rp : tree :=
+  T (Some 0) [114%N] [] [T (Some 1) [97%N] [] []; T (Some 2) [98%N] [] []; T (Some 3) [99%N] [] [];
+                         T (Some 4) [100%N] [] []; T (Some 5) [101%N] [] []].
+Definition kidnames (f : forest) : list str := map tname (tkids (piece f 0)).
+(* F = d is a right sibling of D = b: b disappears, d stays between c and e *)
+Example C08_replace_right_sibling_run :
+  kidnames (fst (run (MI OpShiftReplace ex_fl [47%N] ex_tree_rp [47%N] (T None [] [] []) [47%N]
+                         [[114;47;100]%N] [Some [114;47;98]%N])))
+  = [[97%N]; [99%N]; [100%N]; [101%N]].
+Proof. vm_compute. reflexivity. Qed.
+(* F = a is a left sibling of D = c: a takes c's place *)
+Example C08_replace_left_sibling_run :
+  kidnames (fst (run (MI OpShiftReplace ex_fl [47%N] ex_tree_rp [47%N] (T None [] [] []) [47%N]
+                         [[114;47;97]%N] [Some [114;47;99]%N])))
+  = [[98%N]; [97%N]; [100%N]; [101%N]].
+Proof. vm_compute. reflexivity. Qed.
+(* tree-to-tree: the copy of r/a (from ex_tree) replaces s/u in s(t,u,w): position kept, source untouched *)
+Example C08_replace_position_tt_run :
+  let i := MI OpReplaceTT ex_fl [47%N] ex_tree [47%N]
+              (T (Some 6) [115%N] [] [T (Some 7) [116%N] [] []; T (Some 8) [117%N] [] []; T (Some 9) [119%N] [] []]) [47%N]
+              [[114;47;97]%N] [Some [115;47;117]%N] in
+  map tname (tkids (piece (fst (run i)) 1)) = [[116%N]; [97%N]; [119%N]] /\ piece (fst (run i)) 0 = ex_tree.
+Proof. vm_compute. split; reflexivity. Qed.
+
+(* merge_leaves on r(x(c1..c5), y): the five leaves go to r/y/, x stays (childless) *)
+Example C08_merge_leaves_run :
+  Forall (fun k => tkids k = []) (tkids (T (Some 1) [120%N] [] [T (Some 2) [49%N] [] []; T (Some 3) [50%N] [] []])) /\
+  fst (run (MI OpShift (MF false false false true false true) [47%N] ex_tree_mc [47%N] (T None [] [] []) [47%N]
+               [[114;47;120]%N] [Some [114;47;121;47;120]%N]))
+  = [T (Some 0) [114%N] [] [T (Some 1) [120%N] [] [];
+                           T (Some 7) [121%N] [] [T (Some 2) [49%N] [] []; T (Some 3) [50%N] [] []; T (Some 4) [51%N] [] [];
+                                                  T (Some 5) [52%N] [] []; T (Some 6) [53%N] [] []]]].
+Proof. split; [repeat constructor|vm_compute; reflexivity]. Qed.
+
+(* the whole-call theorem applies to shift r/a/b -> r/d/n/b on ex_tree with sep "/" *)
+Example C08_shift_whole_call_nonvacuous :
+  Forall (sepfree 47%N) [[114%N]; [97%N]; [98%N]] /\ Forall (sepfree 47%N) (tname ex_tree :: [[100%N]; [110%N]])
+  /\ join [47%N] [[114%N]; [97%N]; [98%N]] = [114;47;97;47;98]%N
+  /\ join [47%N] ((tname ex_tree :: [[100%N]; [110%N]]) ++ [tname ex_x]) = [114;47;100;47;110;47;98]%N.
+Proof.
+  assert (S : forall n, n <> 47%N -> sepfree 47%N [n]).
+  { intros n Hn. split; [discriminate|]. intros [E|[]]. congruence. }
+  conj; try reflexivity; repeat constructor; apply S; discriminate.
+Qed.
